@@ -47,6 +47,7 @@ let run (id : string) (hdr : string list) (lines : string list list) (out : stri
   let pr x = out (id ^ " " ^ x) in
   if kv_of hdr "kind" "prog" = "table" then table_lines pr
   else if kv_of hdr "kind" "prog" = "race" then pr "X race"
+  else if kv_of hdr "kind" "prog" = "infolat" then pr "X infolat"
   else begin
     let mode = match kv_of hdr "mode" "replica" with
       | "primary" -> RPrimary | "standalone" -> RStandalone | _ -> RReplica in
